@@ -115,7 +115,6 @@ func New(h host.Host, options ...Option) (*DHT, error) {
 	}
 	err = cfg.apply(
 		LanDHTOption(
-			dht.ProtocolExtension(LanExtension),
 			dht.QueryFilter(dht.PrivateQueryFilter),
 			dht.RoutingTableFilter(dht.PrivateRoutingTableFilter),
 			// filter out localhost IP addresses
@@ -131,6 +130,13 @@ func New(h host.Host, options ...Option) (*DHT, error) {
 	if err != nil {
 		return nil, err
 	}
+	// The extension that tells the LAN DHT's protocol from the WAN DHT's has to
+	// come after the caller's options: ProtocolPrefix assigns the prefix,
+	// ProtocolExtension appends to it. Applied before them, a prefix given for
+	// both DHTs wiped the extension and both ended up on one protocol id of the
+	// host - one stream handler serving, and one mode switch unregistering, for
+	// the two of them.
+	cfg.lan = append(cfg.lan, dht.ProtocolExtension(LanExtension))
 
 	wan, err := dht.New(h, cfg.wan...)
 	if err != nil {
